@@ -79,7 +79,7 @@ theorem Mono.processHeaders {s : H2Stream} {O D : Bytes} (h : Inv s O D) (fs : F
   | connErr s1 hc _ _ _ _ => exact (Mono.ofCtl hc).trans (Mono.connError _)
   | trailers s1 hc _ _ _ _ _ => exact (Mono.ofCtl hc).trans (Mono.endStream _)
   | interim s1 hc _ _ _ _ _ => exact Mono.ofCtl hc
-  | bodiless s1 r hc _ _ hph _ _ _ =>
+  | bodiless s1 r hc _ _ hph _ _ _ _ =>
     split
     · exact (hres s1 r hc hph).trans (Mono.endStream _)
     · exact hres s1 r hc hph
